@@ -102,12 +102,19 @@ def imultPreFix {α : Type} [Zero α] [Div α] [LT α] [DecidableLT α]
     (nc : Nat) (thr : α) (labels : Nat → Nat) (w : Nat → α) (s : α) : List Nat :=
   (List.range nc).filter fun j => decide (thr < normWeight thr labels w s j)
 
-/-- Raw weights in `Float`: `np.exp(-((np.abs(dx + 1j*dy) / kriging_distance_um) ** p))`
-(`np.abs` of a complex number is `hypot`; `sqrt(dx² + dy²)` differs from it by at most an ulp). -/
-def rawWeightF (p krig : Float) (x y : Nat → Float) (i j : Nat) : Float :=
+/-- Raw weights `np.exp(-((np.abs(dx + 1j*dy) / kriging_distance_um) ** p))`, generic in the scalar type and in the
+three external functions (`exp`, `**`, `sqrt`): instantiated at `Float` for execution (`rawWeightF`) and at ℝ with
+`Real.exp`, `Real.rpow`, `Real.sqrt` for the theorems (`Analysis/InterpWeightsC15.lean`).
+(`np.abs` of a complex number is `hypot`; `sqrt(dx² + dy²)` differs from it by at most an ulp.) -/
+def rawWeightG {α : Type} [Add α] [Sub α] [Mul α] [Div α] [Neg α]
+    (exp : α → α) (pow : α → α → α) (sqrt : α → α) (p krig : α) (x y : Nat → α) (i j : Nat) : α :=
   let dx := x j - x i
   let dy := y j - y i
-  Float.exp (-(Float.pow (Float.sqrt (dx * dx + dy * dy) / krig) p))
+  exp (-(pow (sqrt (dx * dx + dy * dy) / krig) p))
+
+/-- Raw weights in `Float`. -/
+def rawWeightF (p krig : Float) (x y : Nat → Float) (i j : Nat) : Float :=
+  rawWeightG Float.exp Float.pow Float.sqrt p krig x y i j
 
 /-- The cut-off `0.005` of the code. -/
 def weightCutF : Float := 0.005
@@ -129,8 +136,19 @@ def listMax : List Int → Int
   | [] => 0
   | x :: xs => xs.foldl max x
 
+/-- The two literals of `np.cumsum(np.r_[0, np.diff(ioutside) - 1])`: the first entry, and what is subtracted from every
+difference (a step of exactly 1 between neighbouring indices adds nothing).  Tied to the source text by `Tie/C15.lean`. -/
+def gapStart : Int := 0
+def gapStep : Int := 1
+
 /-- `a = np.cumsum(np.r_[0, np.diff(ioutside) - 1])`. -/
-def gapCount (iout : List Nat) : List Int := cumsum 0 (0 :: (diffs iout).map (· - 1))
+def gapCount (iout : List Nat) : List Int := cumsum 0 (gapStart :: (diffs iout).map (· - gapStep))
+
+/-- The guard `ioutside.size > 0 and ioutside[-1] == (nc - 1)` of the label-3 rule. -/
+def topGuard (nc : Nat) (iout : List Nat) : Bool :=
+  match iout.getLast? with
+  | none => false
+  | some l => l == nc - 1
 
 /-- The channels that receive label 3: with `ioutside = np.where(low)[0]`,
 `if ioutside.size > 0 and ioutside[-1] == nc - 1: ioutside[a == np.max(a)]`, else none. -/
@@ -198,20 +216,72 @@ def modeOf (l : List Nat) : Option Nat :=
 /-- `channel_flags[c] = mode(channel_labels[c, :])` for the per-batch label vectors `batches`. -/
 def fileLabels (batches : List (Nat → Nat)) (c : Nat) : Option Nat := modeOf (batches.map (· c))
 
+/-- `nc = sr.nc - sr.nsync`: the channels that are analysed (the sync channels at the end of a frame are not). -/
+def analysedChannels (ncTotal nsync : Nat) : Nat := ncTotal - nsync
+
+/-- `channel_flags`: one mode per analysed channel; `none` when there is no batch. -/
+def fileLabelVector (ncTotal nsync : Nat) (batches : List (Nat → Nat)) : Option (List Nat) :=
+  (List.range (analysedChannels ncTotal nsync)).mapM (fileLabels batches)
+
+section Batches
+variable {α : Type} [Zero α] [Add α] [Sub α] [Mul α] [Div α] [BEq α]
+
 /-- `np.linspace(0, stop, n)[i]`: `i * (stop / (n - 1))`, the last element being set to `stop`;
-`[0.]` for `n = 1` (NumPy multiplies by `delta` when the step is undefined). -/
-def linspace0F (stop : Float) (n i : Nat) : Float :=
-  if n ≤ 1 then 0.0 * stop
+`[0.]` for `n = 1` (NumPy multiplies by `delta` when the step is undefined).  Generic in the scalar type (`cast` is the
+conversion of an index to a scalar): `Float` for execution, ℝ for the theorems. -/
+def linspace0 (cast : Nat → α) (stop : α) (n i : Nat) : α :=
+  if n ≤ 1 then 0 * stop
   else if i + 1 = n then stop
   else
-    let step := stop / (n - 1).toFloat
-    if step == 0.0 then (i.toFloat / (n - 1).toFloat) * stop + 0.0 else i.toFloat * step + 0.0
+    let step := stop / cast (n - 1)
+    if step == 0 then (cast i / cast (n - 1)) * stop + 0 else cast i * step + 0
 
 /-- `slice(int(t0 * fs), int((t0 + batch_duration) * fs))` of batch `i`, `t0 = linspace(0, ns/fs - dur, nb)[i]`;
-`int` truncates toward zero. -/
+`trunc` is Python's `int` (truncation toward zero). -/
+def batchSlice (cast : Nat → α) (trunc : α → Int) (ns : Nat) (fs dur : α) (nb i : Nat) : Int × Int :=
+  let rl := cast ns / fs
+  let t0 := linspace0 cast (rl - dur) nb i
+  (trunc (t0 * fs), trunc ((t0 + dur) * fs))
+
+end Batches
+
+/-- `np.linspace` in `Float`. -/
+def linspace0F (stop : Float) (n i : Nat) : Float := linspace0 Nat.toFloat stop n i
+
+/-- The batch slices in `Float` (what the code computes). -/
 def batchSliceF (ns : Nat) (fs dur : Float) (nb i : Nat) : Int × Int :=
-  let rl := ns.toFloat / fs
-  let t0 := linspace0F (rl - dur) nb i
-  ((t0 * fs).toInt64.toInt, ((t0 + dur) * fs).toInt64.toInt)
+  batchSlice Nat.toFloat (fun v => v.toInt64.toInt) ns fs dur nb i
+
+/-! ## `detect_bad_channels.detrend`: `x - medfilt(edge-padded x, nmed)[ntap:-ntap]` -/
+
+/-- `ntap = int(np.ceil(nmed / 2))`. -/
+def detrendTaps (nmed : Nat) : Nat := (nmed + 1) / 2
+
+section Detrend
+variable {α : Type} [Inhabited α] [Zero α] [Sub α] [LT α] [DecidableLT α]
+
+/-- `xf = np.r_[np.zeros(ntap) + x[0], x, np.zeros(ntap) + x[-1]]` (for a non-empty `x`). -/
+def edgePad (ntap : Nat) (x : List α) : List α :=
+  List.replicate ntap (x.headD default) ++ x ++ List.replicate ntap (x.getLastD default)
+
+/-- insertion into an increasingly sorted list (`a` goes before the first strictly greater element) -/
+def insertSorted (a : α) : List α → List α
+  | [] => [a]
+  | b :: r => if a < b then a :: b :: r else b :: insertSorted a r
+
+/-- `scipy.signal.medfilt(v, k)[i]` for odd `k`: the median of the window of half-width `k / 2` centred on `i`,
+the vector being ZERO-padded beyond its ends. -/
+def medfiltAt (v : List α) (k i : Nat) : α :=
+  let h := k / 2
+  let win := (List.range k).map fun q => if i + q < h then (0 : α) else (v.getD (i + q - h) 0)
+  (win.foldr insertSorted []).getD h 0
+
+/-- `detrend(x, nmed)`: `x - medfilt(edgePad x, nmed)[ntap:-ntap]`. -/
+def detrend (x : List α) (nmed : Nat) : List α :=
+  let ntap := detrendTaps nmed
+  let xf := edgePad ntap x
+  (List.range x.length).map fun k => x.getD k 0 - medfiltAt xf nmed (k + ntap)
+
+end Detrend
 
 end IblVerif.BadChannels
